@@ -11,7 +11,7 @@ git reset -q
 for id in "$@"; do
   out=$(cd /verif && VERIF_EVIDENCE_DIR=/tmp/trymutant-evidence VERIF_SEED=${VERIF_SEED:-1} ./check "$id" ${TIER:-quick} 2>&1)
   rc=$?
-  echo "$id rc=$rc $(echo "$out" | grep -E "^(VIOLATION|INCONCLUSIVE|KNOWN)" | head -2 | tr '\n' ' ')"
+  echo "$id rc=$rc $(echo "$out" | grep -E "^(VIOLATION|INCONCLUSIVE)" | head -2 | tr '\n' ' ')"
   if [ -n "${VERBOSE:-}" ]; then echo "$out" | tail -15; fi
 done
 git checkout -q -- .
